@@ -4,6 +4,7 @@ import (
 	"bytes"
 	"encoding/json"
 	"fmt"
+	"io"
 	"reflect"
 	"regexp"
 	"runtime"
@@ -166,6 +167,41 @@ func interpretGuarded(src []byte, extra ...bcl.Option) (o progObs) {
 	return o
 }
 
+// viaDumpLoad runs the program as a loaded bytecode file, with the load given the caller's writers
+func viaDumpLoad(src []byte) (o progObs, ok bool) {
+	var out, lg bytes.Buffer
+	func() {
+		defer func() {
+			if r := recover(); r != nil {
+				o.Panic = fmt.Sprint(r)
+				o.Site = panicSite()
+			}
+		}()
+		p, err := bcl.Parse(src, "input", bcl.OptOutput(io.Discard), bcl.OptLogger(io.Discard))
+		if err != nil {
+			return
+		}
+		var d bytes.Buffer
+		if p.Dump(&d) != nil {
+			return
+		}
+		q, err := bcl.LoadProg(&d, "input", bcl.OptOutput(&out), bcl.OptLogger(&lg))
+		if err != nil {
+			o.Err = "load: " + err.Error()
+			ok = true
+			return
+		}
+		ok = true
+		o.res, o.bind, o.err = bcl.Execute(q)
+	}()
+	if o.err != nil {
+		o.Err = o.err.Error()
+	}
+	o.Out, o.Log, o.Result = out.String(), lg.String(), o.res
+	o.Binding = fmt.Sprintf("%+v", o.bind)
+	return o, ok || o.Panic != ""
+}
+
 var rtErrRe = regexp.MustCompile(`^runtime error: line \d+:\d+: `)
 
 // judgeProg compares one observation with the predicted meaning; returns (why, shape, driftNote)
@@ -281,6 +317,13 @@ func replayProg(args []string) int {
 			obs2 := interpretGuarded(src) // confirm in a fresh call
 			why2, shape2, _ := judgeProg(&c, obs2)
 			s.bad(why, shape, raw, obs, why2 != "" && shape2 == shape)
+		} else if c.Class != "compile-error" {
+			// the same program dumped and loaded back (the load is given the writers): same meaning, warnings on the log writer included
+			if ol, ok := viaDumpLoad(src); ok {
+				if wl, sl, _ := judgeProg(&c, ol); wl != "" {
+					s.bad("after Dump and LoadProg: "+wl, "loaded:"+sl, raw, ol, true)
+				}
+			}
 		}
 	})
 	return s.write(o)
